@@ -54,7 +54,7 @@ def _unwrap(e):
     return e
 
 
-def mutated_names(tree, names, defs=()):
+def mutated_names(tree, names, defs=(), dynamic=None):
     """the names (bare or as attribute) among `names` that are rebound, deleted, item-assigned, augmented or receive a mutating
     method call anywhere in the module, other than by the defining targets in `defs` (ids of Name nodes)"""
     bad = set()
@@ -85,8 +85,8 @@ def mutated_names(tree, names, defs=()):
             if isinstance(a, ast.Constant) and a.value in names:
                 bad.add(a.value)
             elif not isinstance(a, ast.Constant) and isinstance(n.args[0], ast.Name) and (n.args[0].id in ('self', 'cls') or n.args[0].id[:1].isupper()):
-                # a computed attribute name on the object / class that owns the tables could be any of them
-                bad |= set(names)
+                # a computed attribute name on the object / class that owns the tables could be any of its class-level names
+                bad |= set(names if dynamic is None else dynamic)
     return bad
 
 
@@ -106,7 +106,7 @@ class Tables:
             return
         # disqualify tables that are rebound or mutated anywhere
         names = {c[1] for c in cands}
-        bad = mutated_names(tree, names, {id(c[3]) for c in cands})
+        bad = mutated_names(tree, names, {id(c[3]) for c in cands}, dynamic={c[1] for c in cands if c[0] is not None})
         count = {}
         for c in cands:
             count[(c[0], c[1])] = count.get((c[0], c[1]), 0) + 1
@@ -120,6 +120,10 @@ class Tables:
 
     @staticmethod
     def _cand(s, clsname, out, fnames):
+        if isinstance(s, ast.Assign) and len(s.targets) == 1 and isinstance(s.targets[0], ast.Name) and clsname is None \
+                and isinstance(s.value, ast.Constant) and not s.targets[0].id.startswith('__') and s.targets[0].id.isupper():
+            out.append((clsname, s.targets[0].id, s.value, s.targets[0]))       # NAME = 10 / 'text': a named scalar
+            return
         if isinstance(s, ast.Assign) and len(s.targets) == 1 and isinstance(s.targets[0], ast.Name):
             v = _unwrap(s.value)
             if isinstance(v, (ast.Dict, ast.Tuple, ast.List, ast.Set)) and _lit_ok(s.value, fnames):
@@ -192,8 +196,65 @@ class Expander:
         _Getattr().visit(self.tree)
         if self.t.mod or self.t.cls:
             self.scope(self.tree.body, None)
+            self.inline_names()
             _Getattr().visit(self.tree)
+        _ConstStrings().visit(self.tree)
+        _Getattr().visit(self.tree)
         return self.tree
+
+    def inline_names(self):
+        """a plain read of a module-level constant (a literal that is never rebound or mutated: `ALL_TYPES = (A, B)`, `TABLE_ARGS = {...}`,
+        `TIMEOUT = 10`) is replaced by a copy of the literal - naming a literal changes nothing.  Not inside scopes that bind the name."""
+        consts = {k: v for k, v in self.t.mod.items() if self._size(v) <= 40}
+        if not consts:
+            return
+        defs = set()
+        for st_ in self.tree.body:
+            if isinstance(st_, ast.Assign) and len(st_.targets) == 1 and isinstance(st_.targets[0], ast.Name) and st_.targets[0].id in consts:
+                defs.add(id(st_.targets[0]))
+                defs.add(id(st_))
+
+        class Inl(ast.NodeTransformer):
+            def __init__(self_):
+                self_.shadow = [set()]
+
+            def _scope(self_, node):
+                bound = set()
+                a = node.args
+                for x in a.posonlyargs + a.args + a.kwonlyargs + ([a.vararg] if a.vararg else []) + ([a.kwarg] if a.kwarg else []):
+                    bound.add(x.arg)
+                for x in ast.walk(node):
+                    if isinstance(x, ast.Name) and isinstance(x.ctx, (ast.Store, ast.Del)):
+                        bound.add(x.id)
+                self_.shadow.append(bound)
+                self_.generic_visit(node)
+                self_.shadow.pop()
+                return node
+            visit_FunctionDef = _scope
+            visit_AsyncFunctionDef = _scope
+            visit_Lambda = _scope
+
+            def visit_Assign(self_, node):
+                if id(node) in defs:
+                    return node
+                return self_.generic_visit(node)
+
+            def visit_Name(self_, node):
+                if isinstance(node.ctx, ast.Load) and node.id in consts and not any(node.id in sh for sh in self_.shadow):
+                    new = copy.deepcopy(consts[node.id])
+                    for x in ast.walk(new):
+                        ast.copy_location(x, node)
+                    return new
+                return node
+        Inl().visit(self.tree)
+
+    @staticmethod
+    def _size(lit):
+        if isinstance(lit, ast.Dict):
+            return len(lit.keys)
+        if isinstance(lit, (ast.Tuple, ast.List, ast.Set)):
+            return len(lit.elts)
+        return 1
 
     def scope(self, body, clsname):
         for s in body:
@@ -480,4 +541,60 @@ class _Simplify(ast.NodeTransformer):
         self.generic_visit(node)
         if isinstance(node.test, ast.Constant) and isinstance(node.test.value, bool):
             return (node.body if node.test.value else node.orelse) or None
+        return node
+
+
+class _ConstStrings(ast.NodeTransformer):
+    """constant folding of strings built from constants only: 'a' + 'b', '{}_{}'.format('a', 'b'), f'{"a"}_x', '%s_%s' % ('a', 'b');
+    then setattr(o, 'name', v) as a statement is o.name = v  (getattr(o, 'name') is handled by _Getattr)"""
+
+    def visit_BinOp(self, node):
+        self.generic_visit(node)
+        if isinstance(node.op, ast.Add) and isinstance(node.left, ast.Constant) and isinstance(node.right, ast.Constant) \
+                and isinstance(node.left.value, str) and isinstance(node.right.value, str):
+            return ast.copy_location(ast.Constant(value=node.left.value + node.right.value), node)
+        if isinstance(node.op, ast.Mod) and isinstance(node.left, ast.Constant) and isinstance(node.left.value, str):
+            r = node.right
+            vals = None
+            if isinstance(r, ast.Constant) and isinstance(r.value, (str, int)):
+                vals = (r.value,)
+            elif isinstance(r, ast.Tuple) and all(isinstance(x, ast.Constant) and isinstance(x.value, (str, int)) for x in r.elts):
+                vals = tuple(x.value for x in r.elts)
+            if vals is not None:
+                try:
+                    return ast.copy_location(ast.Constant(value=node.left.value % vals), node)
+                except (TypeError, ValueError):
+                    pass
+        return node
+
+    def visit_Call(self, node):
+        self.generic_visit(node)
+        f = node.func
+        if isinstance(f, ast.Attribute) and f.attr == 'format' and isinstance(f.value, ast.Constant) and isinstance(f.value.value, str) and not node.keywords \
+                and node.args and all(isinstance(a, ast.Constant) and isinstance(a.value, (str, int)) for a in node.args):
+            try:
+                return ast.copy_location(ast.Constant(value=f.value.value.format(*[a.value for a in node.args])), node)
+            except (IndexError, KeyError, ValueError):
+                pass
+        return node
+
+    def visit_JoinedStr(self, node):
+        self.generic_visit(node)
+        parts = []
+        for v in node.values:
+            if isinstance(v, ast.Constant) and isinstance(v.value, str):
+                parts.append(v.value)
+            elif isinstance(v, ast.FormattedValue) and v.conversion == -1 and v.format_spec is None and isinstance(v.value, ast.Constant) and isinstance(v.value.value, (str, int)):
+                parts.append(str(v.value.value))
+            else:
+                return node
+        return ast.copy_location(ast.Constant(value=''.join(parts)), node)
+
+    def visit_Expr(self, node):
+        self.generic_visit(node)
+        c = node.value
+        if isinstance(c, ast.Call) and isinstance(c.func, ast.Name) and c.func.id == 'setattr' and len(c.args) == 3 and not c.keywords \
+                and isinstance(c.args[1], ast.Constant) and isinstance(c.args[1].value, str) and c.args[1].value.isidentifier():
+            tgt = ast.copy_location(ast.Attribute(value=c.args[0], attr=c.args[1].value, ctx=ast.Store()), c)
+            return ast.copy_location(ast.Assign(targets=[tgt], value=c.args[2]), node)
         return node
